@@ -117,6 +117,10 @@ def rnd_library(rng, dirpath, with_uq=False):
     basis = None
     if with_uq:
         basis = list(names) + list(descr)
+        # some entries with data stay outside the uncertainty basis (estimating them must be refused)
+        for _ in range(rng.choice([0, 1, 2])):
+            if len(basis) > 3:
+                basis.pop(rng.randrange(len(basis)))
         n = len(basis)
         # random symmetric PSD: A'A with small integers /10
         A = [[rng.randint(-9, 9) / 10.0 for _ in range(n)] for _ in range(n)]
